@@ -82,6 +82,7 @@ type Gen struct {
 	alias    map[string][]string // renamed locals (alias.go)
 	inl      *inlineFrame       // set while a helper's body is executed in place of a call (inline.go)
 	inlineDepth int
+	entryParams map[string]Val
 	inlineStack []*ssa.Function
 }
 
@@ -290,7 +291,7 @@ func (g *Gen) newRef(st *State) string {
 }
 
 func (g *Gen) env(st *State, vars map[string]Val) *Env {
-	return &Env{m: g.m, vars: vars, st: st, old: g.entry, tpkg: g.fn.Pkg.Pkg, spkg: g.fn.Pkg, hget: g.heapGet, gconst: g.constGlobal, alias: g.alias}
+	return &Env{m: g.m, vars: vars, st: st, old: g.entry, tpkg: g.fn.Pkg.Pkg, spkg: g.fn.Pkg, hget: g.heapGet, gconst: g.constGlobal, alias: g.alias, entryParams: g.entryParams}
 }
 
 // ---- type constraints ----
